@@ -127,7 +127,13 @@ func mkDescriptorAdjusted(v c19Val) scte35.SegmentationDescriptor {
 	if !v.Sub || ref.S35HasSubFields(uint8(v.Type)) {
 		sec := ref.S35Canonical()
 		sec.CmdType = ref.S35CmdNull // a signal without a PTS (the decoder refuses a time_signal without time)
-		if v.HasPTS {
+		if v.HasPTS && v.Type%2 == 1 {
+			// odd types: the signal is a splice_insert with an event id of its OWN (the command's event id and
+			// the descriptor's are different things: the relation looks at the descriptor's)
+			sec.CmdType = ref.S35CmdInsert
+			sec.Insert = ref.S35Insert{EventID: 0x1267 + v.Event, Out: true, Program: true, Time: ref.S35Time{Specified: true, PTS: t}, UniqueProgramID: 1}
+			sec.PTSAdj = c19Adj
+		} else if v.HasPTS {
 			sec.CmdType = ref.S35CmdTime
 			sec.Time = ref.S35Time{Specified: true, PTS: t}
 			sec.PTSAdj = c19Adj
@@ -252,12 +258,12 @@ func c19Build(vals []c19Val) *c19Grid {
 	return g
 }
 
-// closing grid: all 256 types x event {1,2} x PTS {100,200,none(=0)} x (num,exp) {(1,1),(1,2)} x sub {absent,(1,1),(1,2)}
+// closing grid: all 256 types x event {0,2} x PTS {100,200,none(=0)} x (num,exp) {(1,1),(1,2)} x sub {absent,(1,1),(1,2)}
 func c19CloseGrid() *c19Grid {
 	c19CloseOnce.Do(func() {
 		var vals []c19Val
 		for t := 0; t < 256; t++ {
-			for _, ev := range []uint32{1, 2} {
+			for _, ev := range []uint32{0, 2} {
 				for _, p := range []int{100, 200, -1, -200} {
 					for _, ne := range [][2]uint8{{1, 1}, {1, 2}, {2, 1}} {
 						for _, sub := range [][3]uint8{{0, 0, 0}, {1, 1, 1}, {1, 1, 2}} {
@@ -283,7 +289,7 @@ func c19EqGrid() *c19Grid {
 		var vals []c19Val
 		for _, t := range []int{0x10, 0x34, 0x35, 0x36, 0x00, 0xFF} {
 			for _, p := range []int{100, 200, 0, -1, -200} {
-				for _, ev := range []uint32{1, 2} {
+				for _, ev := range []uint32{0, 2} {
 					for _, num := range []uint8{1, 2} {
 						for _, exp := range []uint8{1, 2} {
 							for _, sub := range [][3]uint8{{0, 0, 0}, {1, 1, 1}, {1, 1, 2}, {1, 2, 2}} {
@@ -483,7 +489,7 @@ func c19CheckNums(c c19NumCase) engine.Result {
 	var res engine.Result
 	opens := []c19Val{}
 	for _, t := range []int{0x30, 0x34, 0x36, 0x3C, 0x44, 0x10} {
-		for _, ev := range []uint32{1, 2} {
+		for _, ev := range []uint32{0, 2} {
 			opens = append(opens, c19Val{Type: t, Event: ev, HasPTS: true, PTS: 100, Num: 3, Exp: 9})
 		}
 	}
@@ -567,7 +573,7 @@ func init() {
 		Scenarios: []engine.ScenarioRunner{
 			&engine.Enum[c19TypeCase]{
 				Name: "closing-table",
-				Rule: "case = incoming type (all 256); Check evaluates CanClose of its 54 grid descriptors (event {1,2} x PTS {100,200,none,none in the command but PTS() 200 through the adjustment} x (num,exp) {(1,1),(1,2),(2,1)} x sub-segment {absent,(1,1),(1,2)}) against all 13824 grid descriptors of all 256 open types, i.e. every value of (type, type, event-equal, PTS-equal, num==expected) and of the fields the relation must NOT depend on; plus IsIn/IsOut of the type; repeated for 10 (incoming, open) realisations (the last two: a copy on which every field the relation must not look at - cancel indicator, duration, delivery restrictions, UPID, components - was set afterwards, as incoming and as open descriptor): created x moved between signals, signal time carried as pts_time + pts_adjustment 100 (decoded from a reference section where the value is encodable) on either or both sides, and descriptors that got their type by SetTypeID only after having answered CanClose/Equal/IsIn/IsOut under another rule-bearing type (from 0x10 and from 0x35) on either side",
+				Rule: "case = incoming type (all 256); Check evaluates CanClose of its 54 grid descriptors (event {0,2} x PTS {100,200,none,none in the command but PTS() 200 through the adjustment} x (num,exp) {(1,1),(1,2),(2,1)} x sub-segment {absent,(1,1),(1,2)}) against all 13824 grid descriptors of all 256 open types, i.e. every value of (type, type, event-equal, PTS-equal, num==expected) and of the fields the relation must NOT depend on; plus IsIn/IsOut of the type; repeated for 10 (incoming, open) realisations (the last two: a copy on which every field the relation must not look at - cancel indicator, duration, delivery restrictions, UPID, components - was set afterwards, as incoming and as open descriptor): created x moved between signals, signal time carried as pts_time + pts_adjustment 100 (decoded from a reference section where the value is encodable; for odd types from a splice_insert signal whose own splice_event_id differs from the descriptor's event id) on either or both sides, and descriptors that got their type by SetTypeID only after having answered CanClose/Equal/IsIn/IsOut under another rule-bearing type (from 0x10 and from 0x35) on either side",
 				Gen: func(r *engine.Run, emit func(c19TypeCase)) {
 					for t := 0; t < 256; t++ {
 						emit(c19TypeCase{t})
@@ -601,7 +607,7 @@ func init() {
 			},
 			&engine.Enum[c19EqCase]{
 				Name: "equality",
-				Rule: "case = one descriptor of the 768-element equality grid (6 types x PTS {100,200,0,none,none in the command but PTS() 200} x event {1,2} x num {1,2} x expected {1,2} x sub-segment {absent,(1,1),(1,2),(2,2)}); Check first pairs it with further descriptors attached to its OWN signal object (a twin with the same values and three neighbours differing in event id, segment number or type: Equal and CanClose as for any other pair), then compares it with every descriptor of four independent object copies of the grid (moved between signals; signal time carried by a non-zero pts_adjustment; retyped after queries from 0x10 / from 0x35) (symmetry, definition, reflexivity iff PTS), checks transitivity through every equal element and congruence against all 13824 descriptors of the closing grid in both argument positions",
+				Rule: "case = one descriptor of the 768-element equality grid (6 types x PTS {100,200,0,none,none in the command but PTS() 200} x event {0,2} x num {1,2} x expected {1,2} x sub-segment {absent,(1,1),(1,2),(2,2)}); Check first pairs it with further descriptors attached to its OWN signal object (a twin with the same values and three neighbours differing in event id, segment number or type: Equal and CanClose as for any other pair), then compares it with every descriptor of four independent object copies of the grid (moved between signals; signal time carried by a non-zero pts_adjustment; retyped after queries from 0x10 / from 0x35) (symmetry, definition, reflexivity iff PTS), checks transitivity through every equal element and congruence against all 13824 descriptors of the closing grid in both argument positions",
 				Gen: func(r *engine.Run, emit func(c19EqCase)) {
 					for i := range c19EqGrid().vals {
 						emit(c19EqCase{i})
